@@ -575,6 +575,20 @@ def d3(cx: Cx, ob: Ob) -> None:
 
 @obligation("C15-D4", "every class in the Reference hierarchy is frozen (explicitly or by inheritance; none sets frozen=False)", floor=3)
 def d4(cx: Cx, ob: Ob) -> None:
+    # pydantic's model_copy(update=..) starts from `self.__copy__()` and writes the update into that object's
+    # __dict__: a __copy__ that hands back `self` turns model_copy(update=..) into an in-place edit of a frozen object
+    for ci in ref_classes(cx, ob):
+        cp = ci.methods.get("__copy__")
+        if cp is not None and ci.methods.get("model_copy") is None:
+            rets_ = [n_ for n_ in ast.walk(cp.node) if isinstance(n_, ast.Return)]
+            if rets_ and all(isinstance(r_.value, ast.Name) and r_.value.id == cp.params[0].name for r_ in rets_):
+                ob.violate(
+                    cp.qualname,
+                    cp.where,
+                    f"{ci.name}.__copy__ returns the instance itself: pydantic's model_copy(update=..) applies the update to the object __copy__ gives it, so `ref.model_copy(update={{'identifier': ..}})` rewrites the ORIGINAL in place - prefix, identifier, hash and string of an object that sits in sets and dict keys change; instances are no longer immutable",
+                    witness="r = Reference(prefix='a', identifier='1'); s = {r}; r.model_copy(update={'identifier': '2'}); r.identifier == '2' and r not in s",
+                    detail="copy-returns-self",
+                )
     for ci in ref_classes(cx, ob):
         cfg = ci.assigns.get("model_config")
         where_ = f"src/curies/{ci.module.relpath}:{ci.node.lineno}"
